@@ -186,7 +186,7 @@ class Pair:
         cfg = self.w.cfg
         script = dict(script or {})
         seen = {"sd": 0, "ds": 0}
-        dt = max(cfg["ackInt"], cfg["nakInt"], cfg["chkInt"])
+        dt = max(cfg["ackInt"], cfg.get("ackIntD") or 0, cfg["nakInt"], cfg["chkInt"])
         turn, calm, idle = self.turn, self.calm, 0
         for _ in range(max_turns):
             if sibling is not None:
